@@ -339,4 +339,26 @@ Section WaitTaskPhase.
     rewrite step_cache, run_cache in H. cbn [init st_cache] in H.
     unfold latest. rewrite fold_left_app. cbn [fold_left]. exact H.
   Qed.
+
+  (* a pending object whose new observation satisfies the condition is reported
+     reconciled by that very update (from any state) *)
+  Lemma step_pending_reconciles c s i o :
+    In i (st_pending s) ->
+    cond_met c (st_table s) (cache_put eqb (st_cache s) i o) i = true ->
+    snd (step eqb c ids s (Update i o)) = [(i, WSuccessful)].
+  Proof.
+    intros Hp Hm. cbn [step].
+    set (s1 := with_cache s (cache_put eqb (st_cache s) i o)).
+    pose proof (status_update_shape A eqb c ids s1 i) as Sh.
+    assert (Ho : snd (su_outcome A eqb c ids s1 i) = Some WSuccessful).
+    { revert Hm. unfold WaitTaskProofs.su_outcome, WaitTaskProofs.cond_met.
+      cbn [s1 with_cache st_pending st_table st_cache].
+      rewrite (proj2 (contains_In A eqb eqb_spec _ _) Hp).
+      destruct (changed_uid eqb (st_table s) (cache_put eqb (st_cache s) i o) i).
+      - destruct c; cbn; [discriminate|reflexivity].
+      - destruct (reconciled_by_id eqb c (st_table s) (cache_put eqb (st_cache s) i o) i); [reflexivity|].
+        destruct c; discriminate. }
+    destruct (su_outcome A eqb c ids s1 i) as [[dp df] ow]. cbn [snd] in Ho. subst ow.
+    destruct (status_update eqb c ids s1 i) as [s' new]. destruct Sh as [_ [_ [_ [_ [-> _]]]]]. reflexivity.
+  Qed.
 End WaitTaskPhase.
